@@ -54,4 +54,10 @@ if __name__ == "__main__":
         rc = 2
     sys.stdout.flush()
     sys.stderr.flush()
+    try:
+        from sim import build as _b
+
+        _b.cleanup()
+    except Exception:
+        pass
     os._exit(rc if isinstance(rc, int) else 2)
